@@ -335,6 +335,15 @@ func runC07(c FaultCase) (*faultStats, error) {
 			return st, fmt.Errorf("intact frame after an intact frame was not returned intact: %s; fragments seen:%s", desc(), got)
 		}
 		if len(occ) > 1 {
+			// outputs are attributed to frames by content: a fragment of a damaged frame (a duplicated last
+			// packet, say) can coincide with a reference frame of 1..3 bytes, which is not a second delivery
+			total := 0
+			for _, u := range want {
+				total += len(u)
+			}
+			if total < 4 {
+				continue
+			}
 			return st, fmt.Errorf("intact frame returned %d times: %s", len(occ), desc())
 		}
 		j := occ[0]
